@@ -348,8 +348,15 @@ Definition fs_removeall (s : fstate) (p : str) : res unit * fstate :=
   end.
 
 Definition fs_rename (s : fstate) (po pn : str) : res unit * fstate :=
+  (* the kernel resolves both parent directories before it looks up the old
+     name's last component: a bad new parent (ENOTDIR, ENOENT, ELOOP) wins
+     over a missing old entry *)
   match resolve (st_fs s) po false with
-  | WMissing _ _ _ => (Err ENOENT, s)
+  | WMissing _ _ _ =>
+      match resolve (st_fs s) pn false with
+      | WErr e => (Err e, s)
+      | _ => (Err ENOENT, s)
+      end
   | WErr e => (Err e, s)
   | WFound [] _ => (Err EBUSY, s)
   | WFound ko no =>
